@@ -3767,7 +3767,9 @@ impl<'a> Model<'a> {
                     // We need to rename the name in every formula:
 
                     // Parse all formulas with the old name
-                    // All internal formulas are R1C1
+                    // All internal formulas are R1C1, in English
+                    self.parser.set_locale(get_default_locale());
+                    self.parser.set_language(get_default_language());
                     self.parser.set_lexer_mode(LexerMode::R1C1);
                     let worksheets = &mut self.workbook.worksheets;
                     for worksheet in worksheets {
@@ -3786,6 +3788,8 @@ impl<'a> Model<'a> {
                     }
                     // Se the mode back to A1
                     self.parser.set_lexer_mode(LexerMode::A1);
+                    self.parser.set_locale(self.locale);
+                    self.parser.set_language(self.language);
                 }
                 df.name = new_name.to_string();
                 df.sheet_id = new_sheet_id;
